@@ -59,6 +59,7 @@ type propInfo struct {
 	Stubbed   []string
 	Rule      string
 	Assume    []string
+	Anchors   []string // files of the code under test whose block coverage is reported
 }
 
 var props = map[string]*propInfo{}
@@ -144,7 +145,7 @@ func prepare(rewrite bool, pkg string, wantRace bool) *scratch {
 		fail2("copy of %s failed: %v", repoDir, err)
 	}
 	if rewrite {
-		out, err := run(verifDir, goEnv(), filepath.Join(verifDir, "bin", "simgen"), s.typ)
+		out, err := run(verifDir, goEnv(), filepath.Join(verifDir, "bin", "simgen"), s.typ, filepath.Join(dir, "cover.txt"))
 		s.simgen = strings.TrimSpace(out)
 		if err != nil {
 			s.cleanup()
@@ -220,6 +221,7 @@ type workerResult struct {
 	Samples    []any            `json:"samples"`
 	Violations []found          `json:"violations"`
 	Trouble    string           `json:"trouble"`
+	Cover      map[int]uint32   `json:"cover"`
 	Hashes     string           `json:"hashes_file"`
 }
 
@@ -632,6 +634,15 @@ func check(id, tier string) int {
 		}
 	}
 
+	// block coverage of the property's anchor files (plain workers only)
+	hits := map[int]uint64{}
+	for _, r := range results {
+		for i, n := range r.Cover {
+			hits[i] += uint64(n)
+		}
+	}
+	coverage := blockCoverage(filepath.Join(sc.dir, "cover.txt"), hits, p.Anchors)
+
 	// 4. re-verify every violation in a fresh process; name races from the report
 	known := loadKnown()
 	exit := 0
@@ -720,6 +731,7 @@ func check(id, tier string) int {
 		"known_findings_hit":                     knownHit,
 		"simgen":                                 sc.simgen,
 		"rewrite_sanity":                         rewriteTest,
+		"block_coverage_of_anchor_files":         coverage,
 	}
 	if p.Tier == "H" {
 		cov["clients"] = 1
@@ -854,6 +866,56 @@ func crashSignature(stderr string) string {
 		return ""
 	}
 	return "crash: " + msg + " in=" + fn
+}
+
+// blockCoverage reports, per anchor file, how many of the blocks simgen numbered
+// were executed at least once inside simulated runs, and which never were.
+func blockCoverage(table string, hits map[int]uint64, anchors []string) map[string]any {
+	b, err := os.ReadFile(table)
+	if err != nil {
+		return map[string]any{"error": err.Error()}
+	}
+	type fileCov struct {
+		blocks, hit int
+		never       []string
+	}
+	per := map[string]*fileCov{}
+	for _, l := range strings.Split(strings.TrimSpace(string(b)), "\n") {
+		var id int
+		var pos string
+		if _, err := fmt.Sscanf(l, "%d %s", &id, &pos); err != nil {
+			continue
+		}
+		file := pos
+		if k := strings.LastIndex(pos, ":"); k > 0 {
+			file = pos[:k]
+		}
+		want := false
+		for _, a := range anchors {
+			if a == file {
+				want = true
+			}
+		}
+		if !want {
+			continue
+		}
+		fc := per[file]
+		if fc == nil {
+			fc = &fileCov{}
+			per[file] = fc
+		}
+		fc.blocks++
+		if hits[id] > 0 {
+			fc.hit++
+		} else {
+			fc.never = append(fc.never, pos)
+		}
+	}
+	out := map[string]any{"note": "blocks = function bodies, branches, loop bodies and case clauses numbered by simgen; counted in plain-build workers only; a block never executed is listed by file:line"}
+	for f, fc := range per {
+		out[f] = map[string]any{"blocks": fc.blocks, "executed": fc.hit, "never_executed": fc.never}
+	}
+	return out
 }
 
 func annotateReplay(path, sig, detail string) {
